@@ -26,7 +26,7 @@ def plan(tier):
                 'aware mutations of canary-carrying requests) and the known internal-error paths; a root logging handler '
                 'scans every record of level >= INFO (message, arguments, formatted traceback) and every result message '
                 'for canary windows in raw, hex, base64 and escaped form; a cell is (logger, level, source of the record)',
-        'min_monitor': {'records_scanned': 3000, 'canaries_planted': 300, 'result_messages_scanned': 1000,
+        'min_monitor': {'derivations_repeated_with_template_attributes': 300, 'records_scanned': 3000, 'canaries_planted': 300, 'result_messages_scanned': 1000,
                         'failure_paths_logged': 200, 'clients_configured_with_a_password': 100,
                         'crypto_uses_of_canary_keys': 1000},
         'assumptions': ['DEBUG records are allowed to carry encodings (the property is about the default level INFO)',
@@ -231,6 +231,44 @@ def run_case(ctx, case):
                                     ctx.violation('result-message|batch-after-generation|generated-value',
                                                   'a result message of the batch that generated a secret contains that secret: %r'
                                                   % m_[:160], None)
+            # 2b'. a derivation is a function of the base key and the parameters: the value a DeriveKey produces is read back
+            #      once, planted, and the same derivation is then asked for again with every kind of attribute in its
+            #      template, under every protocol version - succeeding or refused at any depth (template processing, object
+            #      construction, the INSERT), nothing logged or answered quotes the derived key
+            if base_u:
+                A_ = E.AttributeType
+                from kmip.core import primitives as primitives_
+                dparams = lambda: attrs.DerivationParameters(cryptographic_parameters=cparams(hashing_algorithm=E.HashingAlgorithm.SHA_256),
+                                                             derivation_data=b'c20-derive-again', salt=b'c20-salt', iteration_count=2)
+                for method in (E.DerivationMethod.PBKDF2, E.DerivationMethod.HMAC, E.DerivationMethod.HASH):
+                    r0 = srv.send([op_derive_key([base_u], method=method, params=dparams(),
+                                                 attributes_list=sym_attrs(length=128, masks=ALL_MASKS))], a, (1, 2))
+                    if r0.error is not None or not r0.ok():
+                        continue
+                    g0 = srv.send([op_get(r0.uid())], a, (1, 2))
+                    dv = [it_[2] for _, it_ in T.walk(g0.payload() or (0, 1, [])) if it_[0] == 0x420043 and it_[1] == T.BYTES]
+                    if not dv:
+                        continue
+                    ctx.scan.plant(dv[0], 'generated-value')
+                    extras = [rig.attr(A_.SENSITIVE, True), rig.attr(A_.SENSITIVE, False), rig.attr(A_.NAME, name_value('c20-again'), 0),
+                              rig.attr(A_.OBJECT_GROUP, 'c20-grp'), rig.attr(A_.OPERATION_POLICY_NAME, 'default'),
+                              rig.attr(A_.ACTIVATION_DATE, 1), rig.attr(A_.STATE, E.State.ACTIVE), rig.attr(A_.CONTACT_INFORMATION, 'c20'),
+                              rig.attr(A_.APPLICATION_SPECIFIC_INFORMATION, {'application_namespace': 'c20', 'application_data': 'c20'}),
+                              rig.attr(A_.EXTRACTABLE, True), rig.attr(A_.ALWAYS_SENSITIVE, True), rig.attr('x-c20', primitives_.TextString('custom', E.Tags.ATTRIBUTE_VALUE))]
+                    for extra in extras:
+                        for v in ((1, 2), (1, 4), (2, 0)):
+                            try:
+                                import copy as copy_
+                                r1 = srv.send([op_derive_key([base_u], method=method, params=dparams(), attributes_list=sym_attrs(
+                                    length=128, masks=ALL_MASKS) + [copy_.deepcopy(extra)])], a, v)
+                            except Exception:
+                                ctx.count('derive_again_not_encodable')
+                                continue
+                            ctx.ev()
+                            ctx.count('derivations_repeated_with_template_attributes')
+                            scan_result(ctx, r1, 'derive-again')
+                            if r1.error is not None or not r1.ok():
+                                ctx.count('failure_paths_logged')
             # 2b. cryptographic use of canary keys that goes wrong at every depth: an Active key of every common size used with
             #     every algorithm, block mode and padding (most of which do not fit it), canary plaintext and IVs - whatever
             #     is refused, by the engine or by the backend, is logged, and the key is in none of those records
